@@ -149,6 +149,22 @@ def run(A, R: Report, thorough: bool):
     any_w = any(E.collect(Ctx(ci.lookup('save'), ('inst', ci)), kinds=FS_MUTATING) for ci, _ in classes)
     R.require(any_w, 'positive control failed: no mutating effect found in any save() - the effect table is blind')
 
+    # ---- R06.5 the codec path is stateless
+    from .purity import check_stateless
+    R.rule('R06.5', 'serialisers and parsers keep no state (functools caches, module-level memo, attribute memo): equal-but-differently-typed values and separate loads never share a cached result', floor=3)
+    fresh_fields = {'_value', '_dir', '_value[]', '_value.append()', '_value.extend()'}
+    for ci, vis in classes:
+        ctxs = [Ctx(ci.lookup(m), ('inst', ci)) for m in ('save', 'load', 'set_value', 'value', 'exists') if ci.lookup(m) is not None]
+        check_stateless(A, R, 'R06.5', f'{ci.short}: codec path', ctxs, 'a value written or loaded later would be served from the memo instead of being serialised / parsed (type-confused scalars, aliased mutable results)',
+                        allow=lambda e: e.kind == 'ATTR_STORE' and e.detail in fresh_fields and e.target == ('self',), at=where(ci.lookup('save')))
+    for ci in fc.all_subclasses(include_self=False):
+        ctxs = [Ctx(ci.lookup(m), ('inst', ci)) for m in ('save_value', 'load_value')]
+        check_stateless(A, R, 'R06.5', f'{ci.short}: codec path', ctxs, 'cached values would be served from a memo instead of the file', at=where(ci.lookup('load_value')))
+    jm = A.prog.modules['taskchain.utils.json']
+    io = A.prog.modules['taskchain.utils.io']
+    ctxs = [Ctx(f, None) for f in list(jm.functions.values()) + [io.functions[n] for n in ('write_jsons', 'iter_json_file') if n in io.functions]]
+    check_stateless(A, R, 'R06.5', 'utils.json / utils.io helpers', ctxs, 'the json helpers must map each call\'s argument to its own result', any_receiver=True, at='src/taskchain/utils/json.py')
+
     # ---- R06.3
     R.rule('R06.3', 'tests on the stored value are identity tests against None / NO_VALUE, never truthiness or ==', floor=2)
     data = A.cls('Data')
@@ -186,7 +202,8 @@ def run(A, R: Report, thorough: bool):
     numeric = any(any(kw.arg == 'key' and 'int(' in src(kw.value) for kw in s.keywords) for s in sorts)
     unordered_glob = any(isinstance(n, ast.For) and 'glob' in src(n.iter) and not src(n.iter).startswith('sorted(') for n in A.typer.own_nodes(fl))
     if by_index:
-        ok = (numeric or (padded and bool(sorts))) and not unordered_glob
+        # zero padding only postpones the problem (index 100 with width 2): the reader must order numerically
+        ok = numeric and not unordered_glob
         R.check(ok, 'R06.4', 'ListOfNumpyData: save/load order', key_of('order', numeric, padded, bool(sorts), unordered_glob), 'numeric sort of index-named files',
                 'files are named by unpadded index but not read back in numeric order (10.npy sorts before 2.npy, or directory order is arbitrary)', where=where(fl))
     else:
